@@ -102,6 +102,8 @@ func runC06() {
 		"filter(1..10, {# % 2 == 0})", "{a: [1, 2], b: {c: 1..2}}", "len(I..I)", "(I - 1)..(I - 9)", "map(3..1, {#})",
 		"len(1..(I + 3)) + len(1..(I + 3))", "len([I, S]) + len(1..(I + 2))", "len(map([1, 2], {#})) + len(0..I)", "len(0..I) + len([I, S])",
 		"len(1..6) + len(1..(I + 2))", "len(map(1..(I + 1), {[1, 2, 3]}))", "len(filter(1..8, {# > 2})) + len(2..I)",
+		// an allocating operand under a slice with an OMITTED bound (the operand is evaluated once)
+		"(1..(I + 5))[1:]", "(1..(I + 5))[:]", "map(1..(I + 3), {# * 2})[2:]", "[I, I + 1, I + 2][1:]", "len((1..(I + 4))[1:]) + len((1..(I + 4))[:2])", "filter(1..(I + 6), {# > 1})[1:]",
 		// one run-time range LARGER than the default budget: a budget raised above the default must be honoured
 		"len(1..(I - I + 1000001))", "len((I - I)..(I - I + 1200000))",
 	}
